@@ -208,6 +208,9 @@ func (g *Globals) CheckDeep() (string, bool) {
 			return g.names[i], false
 		}
 	}
+	if l := secp.VerifLazy(); len(l) > 0 {
+		return l[0] + ": its initialiser ran after package initialisation (state created on first use lives behind a function value)", false
+	}
 	return "", true
 }
 
